@@ -19,6 +19,7 @@ import QmcProofs.LoopPath
 import QmcProofs.Generic
 import QmcProps.C16
 import QmcProps.C08
+import QmcModel.Stepper
 
 namespace Qmc.C04
 open Qmc
@@ -612,6 +613,25 @@ theorem energy_offset {d : Bool} {q : GQmc} {calls : List Call}
   obtain ⟨tr, e1, e2, _, e4⟩ := offset_bookkeeping h
   refine ⟨tr, e1, e2, ?_⟩
   unfold energyForAverageN; rw [e4]; ring
+
+/-- **Energy returned by the default measuring methods** (`timesteps`, `timesteps_sample`,
+`timesteps_measure` → `timesteps_measure_with_self`, C17's model `measureLoop`) on a generic
+sampler built by a call list: when at least one step was measured it is
+`−(Σ n over measured steps / #measured)/β − Σ shifts` — the exact rational average, not a
+truncated one —, and NaN (`none`) when nothing was measured. -/
+theorem measured_energy_offset {σ α : Type} {d : Bool} {q : GQmc} {calls : List Call}
+    (h : makeCalls (GQmc.init d) calls = .ok q) (β : Rat) (r : MState σ α) :
+    ∃ tr : List (Call × Interaction × Rat),
+      tr.map (·.1) = calls.filter accepts ∧
+      (∀ x ∈ tr, construct x.1 = .ok (x.2.1, x.2.2)) ∧
+      (r.measured ≠ 0 → measureEnergy β q.offset r =
+        some (-(((r.totalN : Rat) / (r.measured : Rat)) / β) - sumR (tr.map (·.2.2)))) ∧
+      (r.measured = 0 → measureEnergy β q.offset r = none) := by
+  obtain ⟨tr, e1, e2, _, e4⟩ := offset_bookkeeping h
+  refine ⟨tr, e1, e2, fun hm => ?_, fun hm => ?_⟩
+  · unfold measureEnergy energyForAvgN
+    rw [if_neg hm, e4]; congr 1; ring
+  · unfold measureEnergy; rw [if_pos hm]
 
 /-! ### 6. `timestep` -/
 
